@@ -156,8 +156,8 @@ class FeatureInterval(AbstractFeatureInterval):
     def to_dict(self, chromosome_relative_coordinates: bool = True) -> Dict[str, Any]:
         """Convert to a dict usable by :class:`biocantor.io.models.FeatureIntervalModel`."""
         if chromosome_relative_coordinates:
-            interval_starts = self._genomic_starts
-            interval_ends = self._genomic_ends
+            interval_starts = list(self._genomic_starts)
+            interval_ends = list(self._genomic_ends)
         else:
             interval_starts, interval_ends = list(zip(*((x.start, x.end) for x in self.relative_blocks)))
 
